@@ -188,12 +188,13 @@ theorem shortest_total_f64 {bits : Nat} (h0 : 0 < bits) (hfin : bits < f64.infBi
 theorem shortest_total_f32 {bits : Nat} (h0 : 0 < bits) (hfin : bits < f32.infBits) :
     shortest f32 bits ≠ [] := shortest_total wf_f32 (by decide) (by decide) h0 hfin
 
-/-- what is *not* proved about `shortest`: that among the round-tripping decimals with the maximal
-exponent `E` the returned `D` is (one of) the closest to the exact value of `bits`. -/
-def shortest_closest_full : Prop :=
-  ∀ f, f = f32 ∨ f = f64 → ∀ bits, 0 < bits → bits < f.infBits → ∀ D E, (D, E) ∈ shortest f bits →
-    ∀ D', roundNE f (decFrac D' E).1 (decFrac D' E).2 = bits →
-      |(D : ℚ) * (10 : ℚ) ^ E - valQ f bits| ≤ |(D' : ℚ) * (10 : ℚ) ^ E - valQ f bits|
+/-- **closeness**: among the round-tripping decimals `D'·10^E` with the same (maximal) exponent, the
+returned `D` is nearest to the exact value of `bits` -/
+theorem shortest_closest (hf : WF f) {bits : Nat} (h0 : 0 < bits) (hfin : bits < f.infBits)
+    {D : Nat} {E : Int} (h : (D, E) ∈ shortest f bits) {D' : Nat}
+    (hrt : roundNE f (decFrac D' E).1 (decFrac D' E).2 = bits) :
+    |(D : ℚ) * (10 : ℚ) ^ E - valQ f bits| ≤ |(D' : ℚ) * (10 : ℚ) ^ E - valQ f bits| :=
+  shortest_closest' hf h0 hfin h hrt
 
 /-! ## Non-vacuity: concrete evaluations and instantiated hypotheses -/
 
@@ -262,6 +263,11 @@ example : (-17 : ℤ) ≤ -1 :=
   shortest_maximal_exponent wf_f64 (by decide) (by decide) (by decide +kernel)
     (bits := 0x3fb999999999999a) (D := 1) (by decide +kernel) (D' := 10000000000000001) (by decide)
     (by decide +kernel)
+
+/-- `shortest_closest` instantiated: 2^-1074 prints as 5e-324; 4e-324 also round-trips but is farther -/
+example : |((5 : ℕ) : ℚ) * (10 : ℚ) ^ (-324 : ℤ) - valQ f64 1| ≤
+    |((4 : ℕ) : ℚ) * (10 : ℚ) ^ (-324 : ℤ) - valQ f64 1| :=
+  shortest_closest wf_f64 (by decide) (by decide +kernel) (by decide +kernel) (by decide +kernel)
 
 example : litBits f64 10 10 ⟨true, [0, 0], [0], 5⟩ = f64.signBit :=
   litBits_zero f64 10 10 _ (by decide)
